@@ -118,6 +118,13 @@ class C20Monitor(Monitor):
                     u[i] = nxt
                     nxt += 1
 
+    def on_exception(self, w, info):
+        # the driver tripping over a user object (e.g. hashing or comparing it) is this property's business
+        if "Bare" in info["text"].split("\n")[-2] or "unhashable" in info["text"]:
+            self.violate(w, "driver_fails_on_user_object", f"type={info['type']}|where={info['where']}|driver={w.sc['driver']}", info["text"])
+            return True
+        return super().on_exception(w, info)
+
     def on_end(self, w):
         self._scan(w, "between_trials")
         d = w.mc.to_dict()
@@ -172,12 +179,13 @@ class C20(HistoryCampaign):
             if rnd.random() < 0.3:
                 sc["moves"] = []  # bare moves alone
         drv = sc["driver"]
+        equality = rnd.choice(["plain", "plain", "plain", "eq_unhashable", "eq_hash"])
         for j in range(rnd.randint(1, 2)):
             kinds = ["disp", "noop"] + (["cell", "cell"] if drv in ("Isobaric", "Isotension") else [])
             sc["moves"].append({"name": f"bare{j}", "criteria": "bare",
                                 "verdicts": [rnd.random() < 0.6 for _ in range(rnd.randint(1, 6))],
                                 "probability": gen.rfloat(rnd, 0.5, 3.0, 2),
-                                "move": {"type": "bare", "kind": rnd.choice(kinds),
+                                "move": {"type": "bare", "kind": rnd.choice(kinds), "equality": equality,
                                          "step": gen.logu(rnd, 0.01, 0.2) if rnd.random() < 0.6 else gen.logu(rnd, 1e-10, 1e-3),
                                          "results": [rnd.choice(RESULTS) for _ in range(rnd.randint(1, 6))]}})
         if drv in ("Isobaric", "Isotension") and rnd.random() < 0.4:
